@@ -14,7 +14,7 @@ PROPERTY = "C07"
 H36 = "structure/io/pdb/hybrid36.pyx"
 
 ASSUMPTIONS = [
-    "hybrid-36 is verified at the concrete widths 4 and 5 used by PDBFile (loops unroll: complete for all 2^32 inputs); other widths are not claimed",
+    "hybrid-36 is verified at the concrete widths 0..5 (4 and 5 are the ones PDBFile uses; loops unroll: complete for all 2^32 inputs); larger widths are not claimed",
     "C `int` is 32-bit two's complement, `unsigned int` 32-bit; Cython's cpow(True) power of C integers is exact integer power in the result type",
     "str(int) / int(str) follow the strlib contracts (SMT str.from_int / str.to_int; int() accepts [ws][sign]digits[ws])",
 ]
@@ -65,7 +65,9 @@ def setup_nid(I):
 
 
 CASES = []
-for _L in (4, 5):
+CASES.append(Case(H36 + "::encode_hybrid36", "width=0", setup=setup_encode(0),
+                  raises={"ValueError": "True"}, ensures=[("never_returns", lambda I, env: False)]))
+for _L in (1, 2, 3, 4, 5):
     CASES.append(Case(H36 + "::encode_hybrid36", f"width={_L}", setup=setup_encode(_L),
                       raises={"ValueError": "number < 0 or number > maxn"},
                       ensures=[("h36", ens_encode)], timeout=30))
